@@ -432,7 +432,27 @@ func ctorFieldExpr(p *Prog, rnFn *ssa.Function, recv VM, v ssa.Value) (ssa.Value
 			}
 			cell = freeVarBinding(fv)
 		}
-		return optsCell != nil && cell == ssa.Value(optsCell)
+		if optsCell == nil || cell != ssa.Value(optsCell) {
+			return false
+		}
+		// … read when the options are final: no store into the options variable (the defaulting step
+		// `opt = parseRenderOptions(opt)`, a field assignment) can still follow the read
+		fn := u.Parent()
+		if fn == nil {
+			return false
+		}
+		writesOpts := func(in ssa.Instruction) bool {
+			st, isSt := in.(*ssa.Store)
+			if !isSt {
+				return false
+			}
+			r, _ := addrRoot(st.Addr)
+			return r == ssa.Value(optsCell)
+		}
+		if x, _ := (Query{Fn: fn}).After(u, writesOpts); x != nil {
+			return false
+		}
+		return true
 	}
 	return found[0], cs
 }
